@@ -50,6 +50,11 @@ CHECKS = {
          "Seeded search over request histories (all 53 dispatcher request types with valid and invalid params, unknown/case-variant/garbled/truncated/duplicated/oversized lines, pair.start/claim/revoke, auth-token rotation and removal, debug and mode flips, simulated-clock jumps around token expiry) from nine clients (none, wrong token, admin token, pairing tokens at each role, expired, revoked, previous admin token) against one real ControlState: an observed effect (11-component state probe + resource command log) requires role(credential) >= required(type) by a table written from the property; with a token configured an invalid credential causes no effect and gets an error-only reply without runtime data; every type that ever shows an effect must require more than viewer; debug-class requests are refused and effect-free while debug is off; every line gets exactly one well-formed reply; no panic, no hang. Sampling, not proof.",
          "Trusts the role table written from the property (DESIGN Appendix B), the effect probe's completeness, and the request-type list self-test (source scan of the handler tables). Socket transport, historian, descriptor watcher are stubs; the resource thread is a canned responder fenced after every request.",
          "DESIGN.md section 5 C18"),
+ "C19": ("exploration",
+         "deterministic simulation: sessions of every kind over the real WebIdeState on a real sentinel directory tree with a simulated session clock; seeded operation histories with hostile path strings, symlinks, external modifications; full-tree snapshot diff + marker scan + version-chain refinement oracle (operation granularity)",
+         "Seeded search over histories of every path- or session-taking public operation of WebIdeState (list/tree/open/create/write/rename/delete/search/format/set_active_project/browse/analysis requests/rename_symbol) issued by editor, viewer, expired (clock seam H6b), bogus-token and write-disabled sessions with 16 hostile path classes against a project nested in a sentinel tree with hidden entries, outward/hidden/dangling/looping symlinks: after every operation a no-follow snapshot of the whole tree must show no change outside the active project or in hidden entries, no change at all for non-editor/expired/bogus/write-disabled requests, and no reply may contain a marker planted in outside or hidden files; for writes by several sessions the recorded history must refine the version chain (no acknowledged write on a superseded basis, acknowledged versions advance, refused writes change nothing, disk equals the last acknowledged write or a later external change). Sampling, not proof.",
+         "Trusts the snapshot/marker oracles and the version-chain model (DESIGN Appendix B). Lost-update is explored at operation granularity (interleaving of whole API calls, which hold the state lock); finer thread interleavings inside one call and the HTTP layer are not run.",
+         "DESIGN.md section 4 C19"),
  "C14": ("exploration",
          "deterministic simulation: simulated editor (UTF-16 reference buffer) vs the real language server over an in-process transport; seeded change-notification histories; lock-step text equality, position round trips, twin-server and ASCII-projection-server answer comparison",
          "Seeded search over change histories (insert/delete/replace, multi-change batches, full-text changes, positions at/after line end and EOF, close/re-open, several documents; texts with Latin-1, CJK, astral, ZWJ, combining marks, CRLF/lone CR/mixed terminators) against the real StLanguageServer behind tower_lsp::LspService driven in-process: after every notification the server's document text must equal the editor's buffer byte for byte; offset<->position conversion must be the identity on every denotable boundary; at query points documentSymbol / semanticTokens (full, delta, range) / diagnostics / formatting / rangeFormatting / documentHighlight must equal those of a twin server that only saw the final text, and positions must equal those of an ASCII/LF projection of the text. Sampling, not proof.",
